@@ -42,6 +42,7 @@ def alt_post(bits13):
 
 
 def run_item(item):
+    item.cross_check = True      # thorough tier: discharged obligations are re-decided by cvc5
     pm = load_repo()
     name, prm = item.name, item.params
     if name == "altitude13":
